@@ -1,4 +1,5 @@
 import math
+from ... import ir
 from .nodes import types, expressions, declarations
 
 
@@ -78,13 +79,19 @@ class ConstantExpressionEvaluator:
         return value
 
     def eval_global_access(self, declaration):
-        raise NotImplementedError()
+        """Evaluate the address of a variable or a function.
+
+        Addresses are known at link time, not at compile time."""
+        self.context.error(
+            f"Address of {declaration.name} is not a compile time constant",
+            declaration.location,
+        )
 
     def eval_string_literal(self, expr):
-        raise NotImplementedError()
+        self.not_constant(expr)
 
     def eval_compound_literal(self, expr):
-        raise NotImplementedError()
+        self.not_constant(expr)
 
     def eval_cast(self, expr):
         """Evaluate cast expression."""
@@ -117,7 +124,99 @@ class ConstantExpressionEvaluator:
         return value
 
     def eval_take_address(self, expr):
-        raise NotImplementedError("take address operator: &")
+        """Evaluate the '&' operator."""
+        return self.eval_address(expr)
+
+    def eval_address(self, expr):
+        """Evaluate the address of an lvalue or of a function.
+
+        The address of an object with static storage is an address
+        constant (C99 6.6 $9): the name of a label, plus an offset in bytes
+        when an element or a member is selected.
+        """
+        if isinstance(expr, expressions.VariableAccess):
+            declaration = expr.variable.declaration
+            if isinstance(
+                declaration,
+                (
+                    declarations.VariableDeclaration,
+                    declarations.FunctionDeclaration,
+                ),
+            ):
+                value = self.eval_global_access(declaration)
+            else:
+                self.not_constant(expr)
+        elif isinstance(expr, expressions.ArrayIndex):
+            # The base is an array, or a pointer value:
+            base = self.eval_pointer(expr.base)
+            index = self.eval_expr(expr.index)
+            if not isinstance(index, int):
+                self.not_constant(expr.index)
+            element_size = self.context.sizeof(expr.base.typ.element_type)
+            value = self.offset_address(base, index * element_size)
+        elif isinstance(expr, expressions.FieldSelect):
+            if expr.field.is_bitfield:
+                self.not_constant(expr)
+            base = self.eval_address(expr.base)
+            offset = self.context.offsetof(expr.base.typ, expr.field)
+            value = self.offset_address(base, offset)
+        elif isinstance(expr, expressions.UnaryOperator) and expr.op == "*":
+            value = self.eval_pointer(expr.a)
+        elif isinstance(expr, expressions.StringLiteral):
+            value = self.eval_string_literal(expr)
+        elif isinstance(expr, expressions.CompoundLiteral):
+            value = self.eval_compound_literal(expr)
+        else:
+            self.not_constant(expr)
+        return value
+
+    def eval_pointer(self, expr):
+        """Evaluate an expression to a pointer value.
+
+        An array or a function stands for its address here.
+        """
+        if isinstance(expr.typ, (types.ArrayType, types.FunctionType)):
+            value = self.eval_address(expr)
+        else:
+            value = self.eval_expr(expr)
+        if not self.is_address(value) and not isinstance(value, int):
+            self.not_constant(expr)
+        return value
+
+    @staticmethod
+    def is_address(value):
+        """Test if a value is an address constant.
+
+        This is the address of a label: (ir.ptr, name), or
+        the address of a label plus an offset in bytes:
+        (ir.ptr, name, offset).
+        """
+        return isinstance(value, tuple)
+
+    def offset_address(self, value, offset):
+        """Add an amount of bytes to a pointer value."""
+        bits = self.context.arch_info.get_size("ptr") * 8
+        if self.is_address(value):
+            if len(value) > 2:
+                offset += value[2]
+            # The offset wraps around like a pointer does:
+            offset &= (1 << bits) - 1
+            if offset >> (bits - 1):
+                offset -= 1 << bits
+            if offset:
+                value = (ir.ptr, value[1], offset)
+            else:
+                value = (ir.ptr, value[1])
+        else:
+            # An integer casted to a pointer.
+            value = (value + offset) & ((1 << bits) - 1)
+        return value
+
+    def not_constant(self, expr):
+        """Report an expression which has no value at compile time."""
+        self.context.error(
+            "Expression is not a constant expression", expr.location
+        )
 
     def eval_ternop(self, expr):
         """Evaluate the conditional operator 'a ? b : c'."""
